@@ -10,6 +10,9 @@ proofs : lean/PyAbel/Props/C02.lean
            forward_error_le_of_interp / daun1_forward_error_le   the same reduction for any basis; degree 1: 2ε√(n²−i²) with ε the
                                   piecewise-linear interpolation error (ε = max|f″|/8 is the classical estimate, a hypothesis here)
          (with C09: the daun / onion-peeling forward operators are the Abel integrals of their basis functions)
+         lean/PyAbel/Props/C02Rbasex.lean
+           rbasex_forward_exact   for every angular order n, the radial matrix applied to coefficients c_R is exactly the projection of
+                                  Σ c_R b_R(ρ)·(r/ρ)ⁿ (radially piecewise linear), at every integer distance r ≥ 1 and every Rmax
 K      : Lean operator models vs implementation arrays (methods.corr_operators)
 S      : as C01 with direction='forward' (basex, daun, direct incl. explicit r grid, hansenlaw, rbasex incl. explicit origin),
          dr in {1, 0.5}: the true projection carries the factor dr, so a wrong intensity scale is an envelope violation.
